@@ -504,6 +504,18 @@ class CallsMixin:
     def b_enumerate(self, args, kwargs, node):
         return PyObj('enumerate', seq=args[0])
 
+    def b_deepcopy(self, args, kwargs, node):
+        """copy.deepcopy of a value-semantic container (or None / a scalar): the same content, a new owner."""
+        v = args[0]
+        if isinstance(v, PyObj):
+            if v.tag in ('emptylist', 'emptydict', 'emptyset'):
+                return v
+            raise Unsupported('deepcopy of %r' % (v,))
+        base = v.kind.inner if isinstance(v.kind, K.Opt) else v.kind
+        if isinstance(base, K.Ref):
+            raise Unsupported('deepcopy of an object reference')
+        return V(v.kind, v.terms)
+
     def b_reversed(self, args, kwargs, node):
         """reversed(list): the list read back to front (element j is element len-1-j of the argument)."""
         src = args[0]
@@ -1169,7 +1181,11 @@ class CallsMixin:
                     self.check(z3.Not(K.opt_isnone(v)), 'call %s@%s:arg %s not None' %
                                (c.name, getattr(node, 'lineno', '?'), n), 'precondition', node)
                     v = K.opt_inner(v)
-                out[n] = K.coerce(v, kind)
+                nv = K.coerce(v, kind)
+                if getattr(v, 'origin', None) is not None and nv is not v:
+                    nv = V(nv.kind, nv.terms)
+                    nv.origin = v.origin        # still the owner's own container
+                out[n] = nv
         if c.vararg:
             out[c.vararg] = bound[c.vararg]
         return out
@@ -1215,6 +1231,7 @@ class CallsMixin:
         self.havoc_modifies(c, sub)
         if not c.pure:
             self.advance_alloc()
+        self.flush_ref_bounds()
         sub.run_ghost(c.effects)
         res = K.NONE
         if c.returns is not None and not isinstance(c.returns, K._None):
@@ -1265,6 +1282,7 @@ class CallsMixin:
         self.havoc_modifies(c, sub)
         if not c.pure:
             self.advance_alloc()
+        self.flush_ref_bounds()
         sub.run_ghost(c.effects_exc)
         e = PyRaise(ek, None, origin='%s at line %s' % (c.name, getattr(node, 'lineno', '?')))
         e.obj = PyObj('exc', kind=ek, args=[], fields={
@@ -1368,6 +1386,36 @@ class CallsMixin:
             self.p.fresh('H!%s!%d' % (key, i), z3.ArraySort(z3.IntSort(), s))
             for i, s in enumerate(kind.leaf_sorts())]
         self.assume_field_valid(kind, self.p.heap['%s.%s' % (owner, f)])
+        self.p.__dict__.setdefault('recent_havoc', []).append(('%s.%s' % (owner, f), kind))
+
+    def flush_ref_bounds(self):
+        """Every reference stored in a field that was just havocked (loop head, callee effects) denotes an object
+        allocated so far: below the current allocation counter."""
+        todo = self.p.__dict__.get('recent_havoc') or []
+        self.p.recent_havoc = []
+        a = self.p.alloc
+        done = set()
+        for key, kind in todo:
+            if key in done or key not in self.p.heap:
+                continue
+            done.add(key)
+            arrs = self.p.heap[key]
+            k, off = (kind.inner, 1) if isinstance(kind, K.Opt) else (kind, 0)
+            o = self.p.fresh('ra!o', z3.IntSort())
+            if isinstance(k, K.Map) and isinstance(k.val, K.Ref):
+                x = self.p.fresh('ra!k', k.key.leaf_sorts()[0])
+                dom = z3.Select(z3.Select(arrs[off + 3], o), x)
+                val = z3.Select(z3.Select(arrs[off + 5], o), x)
+                self.p.assume(K.forall([o, x], z3.Implies(dom, z3.And(val > 0, val < a)), patterns=[val]))
+            elif isinstance(k, K.Seq) and isinstance(k.elem, K.Ref):
+                i = self.p.fresh('ra!i', z3.IntSort())
+                val = z3.Select(z3.Select(arrs[off + 1], o), i)
+                self.p.assume(K.forall([o, i], z3.Implies(z3.And(0 <= i, i < z3.Select(arrs[off], o)),
+                                                          z3.And(val > 0, val < a)), patterns=[val]))
+            elif isinstance(k, K.Set) and isinstance(k.elem, K.Ref):
+                x = self.p.fresh('ra!x', z3.IntSort())
+                mem = z3.Select(z3.Select(arrs[off + 1], o), x)
+                self.p.assume(K.forall([o, x], z3.Implies(mem, z3.And(x > 0, x < a)), patterns=[mem]))
 
     def eval_text(self, text):
         node = _parse_expr(text)
